@@ -16,9 +16,9 @@ def cond_branches_on_call(f, call):
             continue
         seen.add(x)
         for u in f.users.get(x, ()):
-            if u.op in ('icmp', 'zext', 'trunc', 'xor', 'and', 'sext'):
+            if u.op in ('icmp', 'zext', 'trunc', 'xor', 'and', 'sext', 'bitcast', 'ptrtoint'):
                 work.append(u.id)
-            elif u.op == 'store' and f.strip(u.ops[0]) == ['i', x]:
+            elif u.op == 'store' and f.strip(u.ops[0]) in (['i', x], f.strip(['i', x])):
                 a = f.strip(u.ops[1])
                 if a[0] == 'i' and f.insts[a[1]].op == 'alloca':
                     r = f.reach([u])
